@@ -398,6 +398,15 @@ def _vine_rt_replay_uncached(vt, d):
                     v2.set_random_state(5)
                     if not v.sample(3).equals(v2.sample(3)):
                         bad.append('seed %d: sample stream differs after the round trip' % seed)
+                from copulas.multivariate.tree import Tree, Edge
+                for t in v.trees:
+                    td = t.to_dict()
+                    if not _eq(td, Tree.from_dict(td).to_dict()):
+                        bad.append('seed %d: Tree.from_dict(t.to_dict()) of the level-%d tree has another to_dict' % (seed, t.level))
+                    for e in t.edges:
+                        if not _eq(e.to_dict(), Edge.from_dict(e.to_dict()).to_dict()):
+                            bad.append('seed %d: Edge.from_dict(e.to_dict()) differs (level %d)' % (seed, t.level))
+                            break
             except Exception as e:      # noqa
                 bad.append('seed %d: %s: %s' % (seed, type(e).__name__, str(e)[:100]))
             if bad:
@@ -451,6 +460,29 @@ def build_vines(chk):
                     c.out['row1'] = I.call_method(m, '_sample_row', [])
                     State.rng = G0
                     c.out['row2'] = I.call_method(m2, '_sample_row', [])
+                    # trees and edges on their own: Tree.from_dict(t.to_dict()) / Edge.from_dict(e.to_dict())
+                    parts = []
+                    if entry_name == 'VineCopula':
+                        TreeC, EdgeC = I.resolve(TREE + 'Tree'), I.resolve(TREE + 'Edge')
+                        for k_, t in enumerate(m.attrs['trees']):
+                            td = I.call_method(t, 'to_dict', [])
+                            t2 = I.call(I.getattr(TreeC, 'from_dict'), [td], {})
+                            if k_ == 0:
+                                um = lambda: Arr2([Lane(x, 1) for x in uq], 1)       # noqa: E731
+                            else:
+                                um = lambda: libmodel.ConcArr([[Sym(ir.var('cm_%d_%d' % (i, j))) for j in range(d)]     # noqa: E731
+                                                               for i in range(d)])
+                            try:
+                                l1 = I.call_method(t, 'get_likelihood', [um()])
+                                l2 = I.call_method(t2, 'get_likelihood', [um()])
+                            except engine.paths.Unsupported as e:
+                                l1 = l2 = 'unsupported: %s' % str(e)[:100]
+                            parts.append(('tree%d' % (k_ + 1), td, I.call_method(t2, 'to_dict', []), l1, l2))
+                            for j_, e in enumerate(t.attrs['edges']):
+                                ed = I.call_method(e, 'to_dict', [])
+                                e2 = I.call(I.getattr(EdgeC, 'from_dict'), [ed], {})
+                                parts.append(('tree%d.edge%d' % (k_ + 1, j_), ed, I.call_method(e2, 'to_dict', []), None, None))
+                    c.out['parts'] = parts
                     return None
                 with vine.mode():
                     res, _ = engine.run_paths(I, body, max_paths=200000)
@@ -485,6 +517,34 @@ def build_vines(chk):
                     chk.add(Ob('C14.%s.same_behaviour.get_likelihood.%d' % (tag, k), r.pc,
                                ir.eq(a.t, b.t) if isinstance(a, Sym) and isinstance(b, Sym) else ir.FALSE, function=fq,
                                free_ufs_ok=True, replay=rp, clause='get_likelihood of the reconstructed vine is identical on any u'))
+                    for nm, d1_, d2_, l1_, l2_ in st.get('parts', []):
+                        g_, diff_ = vine.same_tree(d1_, d2_)
+                        chk.add(Ob('C14.%s.standalone.%s.dict_fixed_point.%d' % (tag, nm, k), r.pc, g_,
+                                   function=TREE + ('Edge' if 'edge' in nm else 'Tree') + '.from_dict', free_ufs_ok=True, replay=rp,
+                                   clause='a tree / edge round-tripped on its own has the same to_dict (parents included)%s' %
+                                          (' [%s]' % diff_ if diff_ else '')))
+                        if isinstance(l1_, str) or isinstance(l2_, str):
+                            chk.undecided.append(('C14.%s.standalone.%s.same_likelihood.%d' % (tag, nm, k), 'executor', str(l2_)))
+                        elif l1_ is not None:
+                            # (value, matrix of conditionals): the value, and every cell of the matrix that the tree writes
+                            # (the others are uninitialised in both and are never read by the next tree, C17)
+                            def parts_of(l_):
+                                val, mat = l_[0], l_[1]
+                                cells = [x for row in getattr(mat, 'data', []) for x in row]
+                                return val, cells
+                            (va, ca), (vb, cb) = parts_of(l1_), parts_of(l2_)
+                            goals_ = [ir.eq(libmodel.to_term(va), libmodel.to_term(vb))] if len(ca) == len(cb) else [ir.FALSE]
+                            for x_, y_ in zip(ca, cb):
+                                tx_, ty_ = libmodel.to_term(x_), libmodel.to_term(y_)
+                                ux = tx_.op == 'var' and tx_.args[0].startswith('undef!')
+                                uy = ty_.op == 'var' and ty_.args[0].startswith('undef!')
+                                if ux and uy:
+                                    continue
+                                goals_.append(ir.eq(tx_, ty_) if not (ux or uy) else ir.FALSE)
+                            same = ir.and_(*goals_)
+                            chk.add(Ob('C14.%s.standalone.%s.same_likelihood.%d' % (tag, nm, k), r.pc, same,
+                                       function=TREE + 'Tree.from_dict', free_ufs_ok=True, replay=rp,
+                                       clause='... and the same Tree.get_likelihood on any conditional matrix'))
                     g, diff = vine.same_tree(st['row1'], st['row2'])
                     chk.add(Ob('C14.%s.same_behaviour.sample_row.%d' % (tag, k), r.pc, g, function=fq, free_ufs_ok=True, replay=rp,
                                clause='a sampled row of the reconstructed vine is identical under the same generator state%s' %
